@@ -279,6 +279,34 @@ def run(ck, m):
                 ck.ob("R3", v, norm(v.elts[0]) == public[k],
                       f"{q}: default of {k!r} is {norm(v.elts[0])} in _style_args but {public[k]} in _render_image; _check_style_args deletes arguments equal to the recorded default, so the renderer would then use the other one",
                       stmt=f"{q}: default {k}")
+        # numeric fields are decimal integers of any length (`\\d+`): which values are in range is the validator's business (it raises the documented
+        # ValueError). A bound on the number of digits makes the parser reject sentences (`z0000000001`) / report out-of-range values as syntax errors.
+        import re._parser as _sp, re._constants as _sc
+        def _digit_item(item):
+            return len(item) == 1 and item[0][0] is _sc.IN and all((k_ is _sc.CATEGORY and v_ is _sc.CATEGORY_DIGIT) or (k_ is _sc.RANGE and v_ == (48, 57)) for k_, v_ in item[0][1])
+        def _bounded_digits(tree):
+            out = []
+            for op_, av_ in tree:
+                if op_ in (_sc.MAX_REPEAT, _sc.MIN_REPEAT):
+                    lo_, hi_, item_ = av_
+                    if _digit_item(list(item_)) and hi_ is not _sc.MAXREPEAT and hi_ > 1:
+                        out.append((lo_, hi_))
+                    out += _bounded_digits(item_)
+                elif op_ is _sc.SUBPATTERN:
+                    out += _bounded_digits(av_[3])
+                elif op_ is _sc.BRANCH:
+                    for b_ in av_[1]:
+                        out += _bounded_digits(b_)
+            return out
+        for p_ in pats:
+            try:
+                bd_ = _bounded_digits(_sp.parse(p_))
+            except Exception:
+                bd_ = None
+            ck.expect(bd_ is not None, f"{q}: field pattern {p_!r} cannot be parsed")
+            if bd_ is not None:
+                ck.ob("R3", spec, not bd_, f"{q}: field pattern {p_!r} limits a decimal field to {bd_[0] if bd_ else ''} digits: integers of any length are sentences of the documented grammar (leading zeros included); "
+                      "a longer in-range value is rejected and an out-of-range one raises StyleError instead of the validator's ValueError", stmt=f"{q}: decimal fields of {p_!r} unbounded in length")
         # pairwise non-overlap: no string of q contains a string of p
         for i, p in enumerate(pats):
             for j, q2 in enumerate(pats):
